@@ -33,6 +33,7 @@ package alpm
 //@ func (*Ecosystem).NewVersion
 //@   ensures text: result1 == nil ==> result0.original == arg1 || result0.original == strings.TrimSpace(arg1)   [C18]
 //@   loop 1 invariant i < len(versionPart)
+//@   loop 1 decreases i + 1   // termination (C06): the index counts down to -1
 //@   ensures xor: (result0 != nil) == (result1 == nil)
 
 //@ func (*Ecosystem).NewVersionRange
